@@ -265,7 +265,8 @@ Proof.
   { apply lookup_field; [assumption|reflexivity|assumption|]. intros; apply tsmp_edges. }
   assert (Lmemo : lookup KMemo vals = match v_memo v with Some m => nonblank m | None => None end).
   { unfold vals. rewrite lookup_row by assumption. rewrite (Hreq KMemo) by (cbn; auto 20).
-    cbn [cell]. destruct (v_memo v); reflexivity. }
+    cbn [cell]. destruct (v_memo v) as [m|]; cbn [oshow]; [|reflexivity].
+    unfold nonblank. rewrite trim_idem. reflexivity. }
   assert (Lsfl : lookup KSfl vals = option_map show_sfl (v_sfl v)).
   { apply lookup_field; [assumption|reflexivity|assumption|].
     intros x E. apply sfl_roundtrip. apply (cv_sfl _ _ CV). exact E. }
